@@ -52,6 +52,10 @@ impl EntryDeserializer {
             // what is decoded: value from the first value_len bytes, key from the next key_len bytes
             r matches Ok(kv) ==> V::spec_decode(buffer@.subrange(0, value_len as int), compression) == Ok::<V, Error>(kv.1)
                 && K::spec_decode(buffer@.subrange(value_len as int, value_len + ken_len)) == Ok::<K, Error>(kv.0), // @label value_then_key_decoded_from_their_recorded_ranges
+            // completeness: an intact entry that fits is not refused (bit-exact round trip needs the decode to happen)
+            (buffer@.len() >= value_len + ken_len && (checksum is None || checksum64(buffer@.subrange(0, value_len + ken_len)) == checksum->Some_0)
+                && V::spec_decode(buffer@.subrange(0, value_len as int), compression) is Ok
+                && K::spec_decode(buffer@.subrange(value_len as int, value_len + ken_len)) is Ok) ==> r is Ok, // @label intact_entry_that_fits_is_decoded
 //@end
 }
 
